@@ -32,7 +32,12 @@ def const_to_sym(c: Any) -> Any:
     if isinstance(c, tuple):
         return STuple(const_to_sym(x) for x in c)
     if isinstance(c, frozenset):
-        return c
+        # elements too: a set of enum members arrives as extract.Sym items, which must become SEnum values or
+        # `member in THE_SET` would be (unsoundly) false
+        items = [const_to_sym(x) for x in c]
+        if all(_hashable_const(x) or isinstance(x, SEnum) for x in items):
+            return frozenset(items)
+        return Opaque("const:frozenset")
     if isinstance(c, extract.Rx):
         return c
     if isinstance(c, extract.Sym):
